@@ -83,6 +83,38 @@ Theorem sse_data_lines_joined_by_newline : forall vs s, e_parts s = [] -> vs <> 
 Proof. exact sse_data_block. Qed.
 Print Assumptions sse_data_lines_joined_by_newline.
 
+(* THE OTHER FIELD RULES, each for all values *)
+Theorem sse_comment_line_ignored : forall s rest, sse_line s (58 :: rest) = s.
+Proof. exact sse_comment_ignored. Qed.
+Print Assumptions sse_comment_line_ignored.
+
+Theorem sse_exactly_one_leading_space_stripped : forall s f v, f <> [] -> no_colon f = true ->
+  starts_sp v = false -> sse_line s (f ++ 58 :: 32 :: v) = sse_line s (f ++ 58 :: v).
+Proof. exact sse_one_leading_space. Qed.
+Print Assumptions sse_exactly_one_leading_space_stripped.
+
+Theorem sse_unknown_field_is_ignored : forall s f v, f <> [] -> no_colon f = true ->
+  known_field f = false -> sse_line s (f ++ 58 :: v) = s.
+Proof. exact sse_unknown_field_ignored. Qed.
+Print Assumptions sse_unknown_field_is_ignored.
+
+Theorem sse_retry_set_iff_integer : forall s v, starts_sp v = false ->
+  sse_line s (bz "retry" ++ 58 :: v) =
+  match (if all_ascii v then py_int 10 v else None) with
+  | Some n => {| e_leid := e_leid s; e_name := e_name s; e_parts := e_parts s; e_retry := Some n;
+                 e_events := e_events s; e_failed := false |}
+  | None => s
+  end.
+Proof. exact sse_retry_rule. Qed.
+Print Assumptions sse_retry_set_iff_integer.
+
+Theorem sse_id_sets_last_event_id : forall s v, starts_sp v = false ->
+  sse_line s (bz "id" ++ 58 :: v) =
+  {| e_leid := Some v; e_name := e_name s; e_parts := e_parts s; e_retry := e_retry s;
+     e_events := e_events s; e_failed := false |}.
+Proof. exact sse_id_rule. Qed.
+Print Assumptions sse_id_sets_last_event_id.
+
 (* non-vacuity: the two streams of the defect report, mixed endings, split inside CRLF *)
 Example c33_split_inside_crlf :
   let ev := {| ev_id := None; ev_name := []; ev_data := bz "x" ++ [10] ++ bz "y" |} in
